@@ -92,7 +92,7 @@ def parse_kv(tokens):
 
 def _split_directive(line):
     # tokens with quoted strings kept whole
-    return re.findall(r'"[^"]*"|\S+', line)
+    return re.findall(r'(?:[^\s"]+|"[^"]*")+', line)
 
 
 def parse_contract(lines, fnrec, unit_name):
@@ -439,6 +439,48 @@ def assemble(unit_path, repo=REPO):
             asm.types.append('%s const %s' % (file, name))
             asm.add(rsx.strip_attrs(rsx.strip_comments(text)))
             i += 1
+        elif d == 'stmtfn':
+            # an expression statement inside a function that cannot be ingested as a whole (plugin glue): the expression text
+            # `<start> EXPR ;` found after the anchor is wrapped, verbatim, in a synthesized function with the given signature.
+            file = toks[1]
+            kv = {}
+            for t in toks[2:]:
+                if '=' in t:
+                    k, v = t.split('=', 1)
+                    kv[k] = v.strip('"')
+            j = i + 1
+            block = []
+            while j < len(src_lines) and not src_lines[j].startswith('//@end'):
+                block.append(src_lines[j]); j += 1
+            src = rsx.Source.get(os.path.join(repo, file))
+            a = src.src.find(kv['after'])
+            if a < 0:
+                raise ExtractError('stmtfn: anchor lost: %s' % kv['after'])
+            st = src.src.find(kv['start'], a)
+            if st < 0:
+                raise ExtractError('stmtfn: start lost: %s' % kv['start'])
+            e0 = st + len(kv['start'])
+            depth, e1 = 0, e0
+            while e1 < len(src.masked):
+                ch = src.masked[e1]
+                if ch in '([{':
+                    depth += 1
+                elif ch in ')]}':
+                    depth -= 1
+                elif ch == ';' and depth == 0:
+                    break
+                e1 += 1
+            expr = rsx.strip_comments(src.src[e0:e1])
+            sig = kv['sig']
+            name = re.search(r'fn\s+(\w+)', sig).group(1)
+            fnrec = FnRec(file, name, 'statement after ' + kv['after'][:40], name, None)
+            if 'props' in kv:
+                fnrec.props |= set(kv['props'].split(','))
+            contract = parse_contract(block, fnrec, unit_name)
+            body = '{\n' + rw.apply_all(expr, {}) + '\n}'
+            emit_fn(asm, fnrec, 'pub ' + sig, body, contract, kv.get('ret', 'r'))
+            asm.manual.append('statement extracted as function: %s: `%s...` after `%s`' % (file, kv['start'], kv['after'][:50]))
+            i = j + 1
         elif d == 'fn':
             file, name = toks[1], toks[2]
             rest = toks[3:]
@@ -460,7 +502,13 @@ def assemble(unit_path, repo=REPO):
             fnrec = FnRec(file, name, scope, kv.get('as', name), kv.get('mod'))
             fnrec.impl = kv.get('impl')
             if fnrec.impl:
-                fnrec.module = fnrec.impl
+                fnrec.impl = fnrec.impl.strip('"')
+                fnrec.module = re.sub(r'<.*?>', '', fnrec.impl.replace(' ', '')) or fnrec.impl
+                if fnrec.impl.startswith('<'):
+                    # generic impl given as "<T:Bound>Type<T>"
+                    gm = re.match(r'(<[^>]*>)(.*)$', fnrec.impl)
+                    fnrec.impl = gm.group(1) + ' ' + gm.group(2)
+                    fnrec.module = re.sub(r'<.*?>', '', gm.group(2))
             if 'props' in kv:
                 fnrec.props |= set(kv['props'].split(','))
             contract = parse_contract(block, fnrec, unit_name)
